@@ -10,6 +10,7 @@ from ..common import Report
 
 PROPERTY = "C07"
 ENGINE = "E2"
+TECHNIQUE = "bounded-exhaustive enumeration of hulls x vertex orders x face scrambles (permutation, reversal, relabelling, triangulation+winding) vs the exact hull structure"
 RULE = (
     "cases = S3(k) lattice hull in convex position x vertex order x placement for ConvexPolyhedron; and Polyhedron inputs derived "
     "from every such hull by every combination of {per-face vertex permutation in (identity, reversal, cyclic shift, transposition, "
